@@ -227,3 +227,49 @@ def default_config(repo):
     if p.returncode != 0:
         return [{"id": "finite:default-config", "ok": False, "detail": "enumeration crashed: " + (p.stderr or "")[-500:]}]
     return json.loads(p.stdout.strip().splitlines()[-1])
+
+
+
+# ---------------------------------------------------------------------------------------------------------------
+# BOUNDED stand-in (never counted as proved): helpers.buffiter is a generator - outside the verifier's subset.  It is run
+# against the obvious spec (buffered iteration yields exactly what plain iteration yields and exhausts the target) for EVERY
+# combination inside the stated bound, with the request it sends served by the real handler logic (tuple(islice(it, count))).
+# ---------------------------------------------------------------------------------------------------------------
+BUFFITER_BOUND = "target length 0..40, chunk 1..9, max_chunk 1..9, factor in {1, 2, 3, 5}"
+_BUFFITER = r'''
+import sys, json, itertools
+sys.path.insert(0, sys.argv[1])
+from rpyc.utils import helpers
+from rpyc.core import consts
+sent = []
+def fake_syncreq(proxy, handler, *args):
+    sent.append((handler, args))
+    assert handler == consts.HANDLE_BUFFITER and len(args) == 1
+    return tuple(itertools.islice(proxy, args[0]))      # what Connection._handle_buffiter does (its contract: C02)
+helpers.syncreq = fake_syncreq
+out, cases = [], 0
+for n in range(0, 41):
+    for chunk in range(1, 10):
+        for max_chunk in range(1, 10):
+            for factor in (1, 2, 3, 5):
+                cases += 1
+                src = iter(range(n))
+                got = list(helpers.buffiter(src, chunk, max_chunk, factor))
+                rest = list(src)
+                if got != list(range(n)) or rest:
+                    if len(out) < 5:
+                        out.append({"id": "bounded:buffiter:n=%d,chunk=%d,max_chunk=%d,factor=%s" % (n, chunk, max_chunk, factor), "ok": False,
+                                    "detail": "buffered iteration yielded %d of %d elements; %d left in the target" % (len(got), n, len(rest))})
+out.append({"id": "bounded:buffiter:all-cases", "ok": not out, "detail": "%d cases" % cases, "cases": cases})
+print(json.dumps(out))
+'''
+
+
+def buffiter_bounded(repo):
+    p = subprocess.run(["/venv/bin/python", "-c", _BUFFITER, repo], capture_output=True, text=True, timeout=300)
+    if p.returncode != 0:
+        return [{"id": "bounded:buffiter", "ok": False, "detail": "bounded run crashed: " + (p.stderr or "")[-500:]}]
+    return json.loads(p.stdout.strip().splitlines()[-1])
+
+
+BOUNDS = {"buffiter_bounded": ("rpyc/utils/helpers.py::buffiter", BUFFITER_BOUND)}
